@@ -201,6 +201,8 @@ impl Config {
 
         // Start the child
         let (result, ()) = env.run_in_child_process((), child_task);
+        #[cfg(feature = "verif-hooks")]
+        crate::system::r#virtual::sim_hook::preempt_point_current("subshell_start").await;
 
         // Restore the original signal mask in the parent process. Need to do
         // this before returning the error if the child process creation failed,
